@@ -50,3 +50,22 @@ Example C06_examples :
   spec_data (fun _ => Some (-2)%Z) Dd [PE (EConst 0)] = Some [254; 255; 255; 255]%N /\
   spec_data (fun _ => Some 65536%Z) Dw [PE (EConst 0)] = None.
 Proof. vm_compute. repeat split; reflexivity. Qed.
+
+(** IN A PROGRAM.  Wherever a data directive stands - any segment order, .org gaps, instructions and other data around it - the
+    bytes [C06_data] specifies for its operands, evaluated at the directive's own location a (the symbol pc reads a; labels are the
+    ones pass 1 placed), are found in the flash image at byte 2a resp. in the EEPROM image at byte a.  In flash a .db list of odd
+    length is the list with one zero byte more ([padded]). *)
+Require Import AvraV.Model.Device AvraV.Model.Parse AvraV.Model.Passes AvraV.Proofs.LayoutProofs AvraV.Proofs.BranchProofs.
+Open Scope N_scope.
+Theorem C06_in_program : forall fuel c segs r1 r2,
+  pass1 c segs = Ok r1 -> pass2 fuel (p1_ctx r1) (p1_segs r1) = Ok r2 -> Forall plain_seg segs ->
+  2 * flash_size (dev c) < lim31 -> eeprom_size (dev c) < lim31 ->
+  forall pre sg post ipre cp k l ipost,
+    segs = (pre ++ sg :: post)%list -> seg_t sg <> SData -> items sg = (ipre ++ (cp, IData k l) :: ipost)%list ->
+  exists a ca before bs after,
+    (match seg_t sg with SCode => p2_code r2 | _ => p2_eeprom r2 end) = (before ++ bs ++ after)%list /\
+    N.of_nat (length before) = unit_of (seg_t sg) * a /\
+    labels ca = labels (p1_ctx r1) /\ dev ca = dev c /\
+    data_bytes fuel (ctx_set_pc ca a) k (padded (seg_t sg) k l) = Ok bs.
+Proof. exact data_lands. Qed.
+Print Assumptions C06_in_program.
